@@ -65,7 +65,15 @@ func genGid(r *kit.Rand) []string {
 	var ls []string
 	byName := r.Chance(1, 3)
 	name := kit.Pick(r, namePool)
-	switch k := r.Intn(12); k {
+	switch k := r.Intn(13); k {
+	case 12: // MIXED by-name flags in one case (a union of differently grouped streams)
+		v := kit.Pick(r, []string{"1", "x", ""})
+		ls = append(ls, gidLine(true, "a="+v, nil, nil))                                  // id = the name
+		ls = append(ls, gidLine(false, "m", []string{"a"}, map[string]string{"a": v}))    // id = a=<v>
+		ls = append(ls, gidLine(true, "", nil, nil))                                      // id = "" = the nil group
+		ls = append(ls, gidLine(false, "m", nil, nil))
+		ls = append(ls, gidLine(true, "cpu", []string{"a"}, map[string]string{"a": v}))   // clean pair: never collides
+		ls = append(ls, gidLine(false, "cpu", []string{"cpu\na"}, map[string]string{"cpu\na": v}))
 	case 0: // the recorded collision shape: ",<dim>=" moved across a value boundary, same dimensions
 		d1, d2 := "a", "b"
 		x, y, z := kit.Pick(r, []string{"x", "", "1", "é"}), kit.Pick(r, []string{"y", "", "2"}), kit.Pick(r, []string{"z", "", "3"})
@@ -283,7 +291,15 @@ func genIso(r *kit.Rand, kind string, big bool) []string {
 	if len(dims) == 0 {
 		byName = true // otherwise there is one group only
 	}
-	ls := []string{fmt.Sprintf("node %s %d %d %s %s", kind, p1, p2, b01(byName), escList(dims))}
+	mode := b01(byName)
+	// (not for the nested-lambda kinds: their recorded deviation is accepted only when the output is exactly predicted,
+	// and behind a union the arrival order is the union's)
+	_, nested := nodePre[kind]
+	mixed := len(dims) > 0 && !nested && r.Chance(1, 8)
+	if mixed {
+		mode, byName = "2", false
+	}
+	ls := []string{fmt.Sprintf("node %s %d %d %s %s", kind, p1, p2, mode, escList(dims))}
 	// groups with pairwise different structured keys and no ',' in a value (collisions have their own cases)
 	ng := r.Range(2, 4)
 	if big {
@@ -296,12 +312,15 @@ func genIso(r *kit.Rand, kind string, big bool) []string {
 		if byName || r.Chance(1, 5) {
 			g.name = kit.Pick(r, []string{"m", "cpu", "m n"})
 		}
+		if mixed {
+			g.name = kit.Pick(r, []string{"m", "cpu"})
+		}
 		for _, d := range dims {
 			if r.Chance(7, 8) { // sometimes the tag is missing altogether
 				g.tags[d] = kit.Pick(r, cleanVals)
 			}
 		}
-		k := gkey(byName, g.name, dims, g.tags)
+		k := gkey(byName || (mixed && g.name == "cpu"), g.name, dims, g.tags)
 		if seen[k] {
 			continue
 		}
@@ -371,7 +390,7 @@ func genIso(r *kit.Rand, kind string, big bool) []string {
 			tags["x"] = kit.Pick(r, []string{"p", "q", "p,q"}) // a non-dimension tag
 		}
 		name := cur.name
-		if !byName && r.Chance(1, 6) {
+		if !byName && !mixed && r.Chance(1, 6) {
 			name = kit.Pick(r, []string{"m", "cpu"}) // not grouping by name: names may differ inside a group
 		}
 		ls = append(ls, fmt.Sprintf("pt %s %s %s %d", kit.Esc(name), mapTok(tags), fieldsTok(v), cur.t*1e9))
